@@ -49,7 +49,7 @@ func (C14) Explore(x *kernel.Explorer, seed uint64) {
 			} else if r.Chance(1, 6) {
 				// a message cut to a drawn length (0..47 bytes) with a matching length field
 				f.Kind = "truncate-message"
-				f.Arg |= int64(r.Intn(48)) << 20
+				f.Arg |= int64(min(r.Intn(48), r.Intn(24))) << 20 // short cuts more often: headers end early
 			} else if r.Chance(1, 8) {
 				f.Kind = "ones-field"
 			} else if r.Chance(1, 8) {
